@@ -2,14 +2,10 @@
 From Coq Require Import ZArith List Bool Lia ZifyBool.
 From PV Require Import Lib.Reflect Lib.PyBase Spec.Cal Proofs.CalFacts.
 From PV Require Import Gen.Constants Gen.Helpers Gen.RustConstants Model.RustHelpers Model.PdBase Gen.PreciseDiff Model.RustPreciseDiff Model.PdInterval.
-From PV Require Import Proofs.C06Facts Proofs.C06Spec Proofs.C06Rust.
+From PV Require Import Proofs.C06Facts Proofs.C06Spec Proofs.C06Dates Proofs.C06Rebuild Proofs.C06Interval Proofs.C06Rust.
 Import ListNotations.
 Ltac Zify.zify_post_hook ::= Z.to_euclidean_division_equations.
 Open Scope Z_scope.
-
-Definition in_ranges (r : pdiff) : Prop :=
-  0 <= pd_years r /\ 0 <= pd_months r <= 11 /\ 0 <= pd_days r <= 30 /\ 0 <= pd_hours r <= 23 /\
-  0 <= pd_minutes r <= 59 /\ 0 <= pd_seconds r <= 59 /\ 0 <= pd_microseconds r <= 999999.
 
 (* equal operands *)
 Lemma py_pd_equal a b : dt_pair a b -> p_wall a = p_wall b -> py_precise_diff a b = Ok (mkPD 0 0 0 0 0 0 0 0).
@@ -21,28 +17,13 @@ Proof.
   unfold p_eqb, p_comparable, p_aware. rewrite Ka, Kb, Da, Db, Htz, E. rewrite !Bool.eqb_reflx. cbn. lia.
 Qed.
 
-(* from the specification and the order of the operands: all components are canonical *)
-Lemma spec_ranges a b r : dt_pair a b -> p_wall a < p_wall b -> pd_spec a b r -> in_ranges r.
-Proof.
-  intros (Wa & Wb & Da & Db & Htz) Hlt S. destruct Wa as (Va & Ta & Oa). destruct Wb as (Vb & Tb & Ob).
-  pose proof (wall_le_split a b Ta Tb ltac:(lia)) as Hsplit.
-  assert (Hlex := fun H => ord_le_lex a b Va Vb H).
-  pose proof (same_date_tod a b) as Hsame. specialize (fun e1 e2 e3 => Hsame e1 e2 e3 Hlt).
-  apply valid_dateb_true in Va, Vb.
-  pose proof (dim_bounds (p_year b) (p_month b)) as B1.
-  pose proof (dim_bounds (prev_y (p_year b) (p_month b)) (prev_m (p_month b))) as B2.
-  pose proof (dim_bounds (p_year a) (p_month a)) as B4.
-  unfold pd_spec in S. unfold in_ranges.
-  destruct (tod b <? tod a) eqn:Eb; lia.
-Qed.
-
 Lemma py_pd_ranges a b : dt_pair a b -> p_wall a <= p_wall b ->
   exists r, py_precise_diff a b = Ok r /\ in_ranges r.
 Proof.
   intros P Hle. destruct (Z.eq_dec (p_wall a) (p_wall b)) as [E|N].
   - exists (mkPD 0 0 0 0 0 0 0 0). split; [apply py_pd_equal; assumption|]. unfold in_ranges; cbn; lia.
   - pose proof (py_pd_spec a b P ltac:(lia)) as S. destruct (py_precise_diff a b) as [r|]; [|contradiction].
-    exists r. split; [reflexivity|]. apply (spec_ranges a b); [assumption|lia|tauto].
+    exists r. split; [reflexivity|]. apply (spec_ranges a b); [apply P|apply P|lia|tauto].
 Qed.
 
 (* the time-of-day components are exactly the time-of-day difference, with one day borrowed when the end is earlier in its day *)
@@ -90,50 +71,190 @@ Proof.
 Qed.
 
 Lemma rs_pd_ranges a b : dt_pair a b -> 1 <= p_year a -> p_wall a < p_wall b -> in_ranges (rs_precise_diff a b true).
-Proof. intros P Hy Hlt. apply (spec_ranges a b); [assumption|assumption|]. apply rs_pd_spec; assumption. Qed.
+Proof. intros P Hy Hlt. apply (spec_ranges a b); [apply P|apply P|assumption|]. apply rs_pd_spec; assumption. Qed.
 
 Lemma in_months_of_components d e : iv_in_months (iv_components d e) = 12 * pd_years d + pd_months d.
 Proof. unfold iv_components. cbn [iv_in_months]. unfold C_MONTHS_PER_YEAR. lia. Qed.
 
-(* ---------- the defects of the current code, by computation on the faithful models ---------- *)
+(* ---------- Date operands ---------- *)
+Lemma py_pd_equal_date a b : date_pair a b -> p_wall a = p_wall b -> py_precise_diff a b = Ok (mkPD 0 0 0 0 0 0 0 0).
+Proof.
+  intros (Wa & Wb & Da & Db & Ma & Mb) E.
+  unfold py_precise_diff. replace (p_eqb a b) with true; [reflexivity|].
+  unfold p_eqb, p_comparable, p_aware. rewrite !key_date by assumption. rewrite Da, Db. cbn [andb Bool.eqb].
+  rewrite !p_wall_split, (midnight_tod a Ma), (midnight_tod b Mb) in E. unfold us_per_day in E. lia.
+Qed.
+
+Lemma py_pd_ranges_date a b : date_pair a b -> p_wall a <= p_wall b ->
+  exists r, py_precise_diff a b = Ok r /\ in_ranges r.
+Proof.
+  intros P Hle. destruct (Z.eq_dec (p_wall a) (p_wall b)) as [E|N].
+  - exists (mkPD 0 0 0 0 0 0 0 0). split; [apply py_pd_equal_date; assumption|]. unfold in_ranges; cbn; lia.
+  - pose proof (py_pd_spec_date a b P ltac:(lia)) as S. destruct (py_precise_diff a b) as [r|]; [|contradiction].
+    exists r. split; [reflexivity|]. apply (spec_ranges a b); [apply P|apply P|lia|tauto].
+Qed.
+
+Lemma rs_eq_py_date a b e : date_pair a b -> 1 <= p_year a -> p_wall a < p_wall b ->
+  py_precise_diff a b = Ok (rs_precise_diff a b e).
+Proof.
+  intros P Hy Hlt. pose proof (py_pd_spec_date a b P Hlt) as S. pose proof (rs_pd_spec_date a b e P Hy Hlt) as [R Rt].
+  destruct (py_precise_diff a b) as [r|]; [|contradiction]. destruct S as [S St].
+  f_equal. apply (spec_unique a b); [assumption|assumption|].
+  rewrite St, Rt. destruct P as ((Va & Ta & _) & (Vb & Tb & _) & _).
+  pose proof (wall_le_split a b Ta Tb ltac:(lia)) as Hs. pose proof (ord_le_lex a b Va Vb) as Hl.
+  assert (Hle : p_date_ord a <= p_date_ord b) by (clear - Hs; lia). pose proof (Hl Hle) as Hl2.
+  assert (1 <= p_year b) by (clear - Hl2 Hy; lia).
+  apply valid_dateb_true in Va, Vb.
+  rewrite !rs_day_number_eq by lia. reflexivity.
+Qed.
+
+(* ---------- rebuilding the end: a + (b - a) = b ---------- *)
+(* the operands of the statement: two datetimes (naive or both aware with zero offset) or two plain dates *)
+Definition op_pair (a b : pdt) : Prop := dt_pair a b \/ date_pair a b.
+
+Lemma op_pair_wf a b : op_pair a b -> wf_op a /\ wf_op b /\ kind_ok a b.
+Proof.
+  intros [(Wa & Wb & Da & _) | (Wa & Wb & Da & _ & Ma & Mb)]; (split; [assumption|]; split; [assumption|]).
+  - left. assumption.
+  - right. auto.
+Qed.
+
+Lemma py_pd_spec_any a b : op_pair a b -> p_wall a < p_wall b ->
+  match py_precise_diff a b with Ok r => pd_spec a b r | Raise _ => False end.
+Proof.
+  intros [P|P] Hlt.
+  - pose proof (py_pd_spec a b P Hlt) as S. destruct (py_precise_diff a b); tauto.
+  - pose proof (py_pd_spec_date a b P Hlt) as S. destruct (py_precise_diff a b); tauto.
+Qed.
+
+(* the pure-Python helper (translated): for every ordered pair of the domain, every year 1..9999 *)
+Lemma py_pd_rebuild a b : op_pair a b -> 1 <= p_year a -> p_year b <= 9999 -> p_wall a <= p_wall b ->
+  exists r, py_precise_diff a b = Ok r /\ in_ranges r /\ rebuilds a b r.
+Proof.
+  intros P Hya Hyb Hle. pose proof (op_pair_wf a b P) as (Wa & Wb & K).
+  destruct (Z.eq_dec (p_wall a) (p_wall b)) as [E|N].
+  - exists (mkPD 0 0 0 0 0 0 0 0). split; [destruct P; [apply py_pd_equal | apply py_pd_equal_date]; assumption|].
+    split; [unfold in_ranges; cbn; lia|]. apply zero_rebuilds; try assumption.
+    pose proof (wall_eq_fields a b Wa Wb E) as (E1 & _). lia.
+  - assert (Hlt : p_wall a < p_wall b) by lia.
+    pose proof (py_pd_spec_any a b P Hlt) as S. destruct (py_precise_diff a b) as [r|]; [|contradiction].
+    exists r. split; [reflexivity|]. split; [apply (spec_ranges a b); assumption|]. apply spec_rebuilds; assumption.
+Qed.
+
+(* the compiled helper (hand model) *)
+Lemma lex_gtb_refl l : lex_gtb l l = false.
+Proof. induction l as [|x l IH]; [reflexivity|]. cbn [lex_gtb]. rewrite Z.gtb_ltb, Z.ltb_irrefl. exact IH. Qed.
+
+Lemma rs_core_same i : rs_core i i 1 0 = mkPD 0 0 0 0 0 0 0 0.
+Proof. unfold rs_core. rewrite !Z.sub_diag. change (0 <? 0) with false. cbv beta iota zeta. reflexivity. Qed.
+
+Lemma rs_pd_equal a b e : op_pair a b -> (p_is_dt a = true -> e = true) -> p_wall a = p_wall b -> rs_precise_diff a b e = mkPD 0 0 0 0 0 0 0 0.
+Proof.
+  intros P He E. pose proof (op_pair_wf a b P) as (Wa & Wb & _).
+  pose proof (wall_eq_fields a b Wa Wb E) as (E1 & E2 & E3 & E4 & E5 & E6 & E7).
+  unfold rs_precise_diff.
+  destruct P as [(_ & _ & Da & Db & _) | (_ & _ & Da & Db & _)].
+  - rewrite (He Da). rewrite Db, Da. cbn [andb]. destruct Wa as (_ & Ta & Oa). destruct Wb as (_ & Tb & Ob).
+    rewrite (rs_info_plain a) by assumption. rewrite (rs_info_plain b) by assumption.
+    rewrite <- E1, <- E2, <- E3, <- E4, <- E5, <- E6, <- E7. rewrite Z.sub_diag.
+    unfold rs_gtb. rewrite lex_gtb_refl. apply rs_core_same.
+  - rewrite Db, Da. cbn [andb]. unfold rs_info.
+    rewrite <- E1, <- E2, <- E3. rewrite Z.sub_diag.
+    unfold rs_gtb. rewrite lex_gtb_refl. apply rs_core_same.
+Qed.
+
+Lemma rs_pd_rebuild a b : op_pair a b -> 1 <= p_year a -> p_year b <= 9999 -> p_wall a <= p_wall b ->
+  in_ranges (rs_precise_diff a b true) /\ rebuilds a b (rs_precise_diff a b true).
+Proof.
+  intros P Hya Hyb Hle. pose proof (op_pair_wf a b P) as (Wa & Wb & K).
+  destruct (Z.eq_dec (p_wall a) (p_wall b)) as [E|N].
+  - rewrite (rs_pd_equal a b true P (fun _ => eq_refl) E). split; [unfold in_ranges; cbn; lia|].
+    apply zero_rebuilds; try assumption. pose proof (wall_eq_fields a b Wa Wb E) as (E1 & _). lia.
+  - assert (Hlt : p_wall a < p_wall b) by lia.
+    assert (S : pd_spec a b (rs_precise_diff a b true)).
+    { destruct P as [P|P]; [apply rs_pd_spec | apply rs_pd_spec_date]; assumption. }
+    split; [apply (spec_ranges a b); assumption|]. apply spec_rebuilds; assumption.
+Qed.
+
+(* when both operands carry the same tzinfo the rebuilt value is the end itself *)
+Definition same_tzinfo (a b : pdt) : Prop := p_has_tz a = p_has_tz b /\ p_tzname a = p_tzname b /\ p_tzobj a = p_tzobj b.
+
+Lemma op_pair_retz a b : op_pair a b -> same_tzinfo a b -> p_retz a b = b.
+Proof.
+  intros P (H1 & H2 & H3). apply p_retz_same; try assumption.
+  - destruct P as [((_ & _ & Oa) & (_ & _ & Ob) & _) | ((_ & _ & Oa) & (_ & _ & Ob) & _)]; lia.
+  - destruct P as [(_ & _ & Da & Db & _) | (_ & _ & Da & Db & _)]; rewrite Da, Db; reflexivity.
+Qed.
+
+Lemma py_pd_rebuild_same a b : op_pair a b -> same_tzinfo a b -> 1 <= p_year a -> p_year b <= 9999 -> p_wall a <= p_wall b ->
+  exists r, py_precise_diff a b = Ok r /\
+    pd_add_duration a (pd_years r) (pd_months r) 0 (pd_days r) (pd_hours r) (pd_minutes r) (pd_seconds r) (pd_microseconds r) = Ok b.
+Proof.
+  intros P T Hya Hyb Hle. destruct (py_pd_rebuild a b P Hya Hyb Hle) as (r & Hr & _ & Hb).
+  exists r. split; [assumption|]. unfold rebuilds in Hb. rewrite (op_pair_retz a b P T) in Hb. exact Hb.
+Qed.
+
+Lemma rs_pd_rebuild_same a b : op_pair a b -> same_tzinfo a b -> 1 <= p_year a -> p_year b <= 9999 -> p_wall a <= p_wall b ->
+  let r := rs_precise_diff a b true in
+  pd_add_duration a (pd_years r) (pd_months r) 0 (pd_days r) (pd_hours r) (pd_minutes r) (pd_seconds r) (pd_microseconds r) = Ok b.
+Proof.
+  intros P T Hya Hyb Hle. destruct (rs_pd_rebuild a b P Hya Hyb Hle) as (_ & Hb).
+  cbv zeta. unfold rebuilds in Hb. rewrite (op_pair_retz a b P T) in Hb. exact Hb.
+Qed.
+
+(* ---------- the Interval glue: a + (b - a) and a.add(components of b - a) ---------- *)
+Lemma py_iv_rebuild a b : op_pair a b -> 1 <= p_year a -> p_year b <= 9999 -> p_wall a <= p_wall b ->
+  exists r, py_precise_diff a b = Ok r /\ dt_add_ivc a (iv_components r (iv_elapsed a b)) = Ok (p_retz a b).
+Proof.
+  intros P Hya Hyb Hle. pose proof (op_pair_wf a b P) as (Wa & Wb & K).
+  destruct (Z.eq_dec (p_wall a) (p_wall b)) as [E|N].
+  - exists (mkPD 0 0 0 0 0 0 0 0). split; [destruct P; [apply py_pd_equal | apply py_pd_equal_date]; assumption|].
+    apply zero_iv_rebuilds; try assumption. pose proof (wall_eq_fields a b Wa Wb E) as (E1 & _). lia.
+  - assert (Hlt : p_wall a < p_wall b) by lia.
+    pose proof (py_pd_spec_any a b P Hlt) as S. destruct (py_precise_diff a b) as [r|]; [|contradiction].
+    exists r. split; [reflexivity|]. apply spec_iv_rebuilds; assumption.
+Qed.
+
+Lemma rs_iv_rebuild a b : op_pair a b -> 1 <= p_year a -> p_year b <= 9999 -> p_wall a <= p_wall b ->
+  dt_add_ivc a (iv_components (rs_precise_diff a b true) (iv_elapsed a b)) = Ok (p_retz a b).
+Proof.
+  intros P Hya Hyb Hle. pose proof (op_pair_wf a b P) as (Wa & Wb & K).
+  destruct (Z.eq_dec (p_wall a) (p_wall b)) as [E|N].
+  - rewrite (rs_pd_equal a b true P (fun _ => eq_refl) E).
+    apply zero_iv_rebuilds; try assumption. pose proof (wall_eq_fields a b Wa Wb E) as (E1 & _). lia.
+  - assert (Hlt : p_wall a < p_wall b) by lia.
+    assert (S : pd_spec a b (rs_precise_diff a b true)).
+    { destruct P as [P|P]; [apply rs_pd_spec | apply rs_pd_spec_date]; assumption. }
+    apply spec_iv_rebuilds; assumption.
+Qed.
+
+(* ---------- witnesses ---------- *)
 Definition naive_dt (y m d hh mm ss us : Z) : pdt := mkpdt y m d hh mm ss us 0 false 0 0 true.
 Definition aware_dt (y m d hh mm ss us off obj : Z) : pdt := mkpdt y m d hh mm ss us off true 0 obj true.
-
-Definition rebuilds (a b : pdt) (r : pdiff) : Prop :=
-  pd_add_duration a (pd_years r) (pd_months r) 0 (pd_days r) (pd_hours r) (pd_minutes r) (pd_seconds r) (pd_microseconds r) = Ok b.
+Definition plain_date (y m d : Z) : pdt := mkpdt y m d 0 0 0 0 0 false 0 0 false.
 
 Lemma dt_pair_naive y1 m1 d1 y2 m2 d2 :
   valid_dateb y1 m1 d1 = true -> valid_dateb y2 m2 d2 = true -> dt_pair (naive_dt y1 m1 d1 0 0 0 0) (naive_dt y2 m2 d2 0 0 0 0).
 Proof. intros V1 V2. unfold dt_pair, wf_op, wf_time, naive_dt; cbn. repeat split; auto; lia. Qed.
 
-(* 2021-05-02 -> 2021-06-01: "1 month 0 days", and start + 1 month = 2021-06-02 *)
-Lemma rebuild_refuted : exists a b r, dt_pair a b /\ p_wall a <= p_wall b /\ py_precise_diff a b = Ok r /\ in_ranges r /\ ~ rebuilds a b r.
-Proof.
-  exists (naive_dt 2021 5 2 0 0 0 0), (naive_dt 2021 6 1 0 0 0 0), (mkPD 0 1 0 0 0 0 0 30).
-  split; [apply dt_pair_naive; reflexivity|]. split; [vm_compute; discriminate|]. split; [vm_compute; reflexivity|].
-  split; [unfold in_ranges; cbn; lia|]. unfold rebuilds. vm_compute. discriminate.
-Qed.
+(* the former witnesses of finding exact-month-arm, now ordinary cases:
+   2021-05-02 -> 2021-06-01 is "30 days" (was "1 month", start + 1 month = 2021-06-02);
+   2021-01-30 -> 2021-02-27 is "28 days" (was "1 month", start + 1 month = 2021-02-28) — both backends *)
+Example former_witnesses_rebuild :
+  py_precise_diff (naive_dt 2021 5 2 0 0 0 0) (naive_dt 2021 6 1 0 0 0 0) = Ok (mkPD 0 0 30 0 0 0 0 30) /\
+  rs_precise_diff (naive_dt 2021 5 2 0 0 0 0) (naive_dt 2021 6 1 0 0 0 0) true = mkPD 0 0 30 0 0 0 0 30 /\
+  rebuilds (naive_dt 2021 5 2 0 0 0 0) (naive_dt 2021 6 1 0 0 0 0) (mkPD 0 0 30 0 0 0 0 30) /\
+  py_precise_diff (naive_dt 2021 1 30 0 0 0 0) (naive_dt 2021 2 27 0 0 0 0) = Ok (mkPD 0 0 28 0 0 0 0 28) /\
+  rs_precise_diff (naive_dt 2021 1 30 0 0 0 0) (naive_dt 2021 2 27 0 0 0 0) true = mkPD 0 0 28 0 0 0 0 28 /\
+  rebuilds (naive_dt 2021 1 30 0 0 0 0) (naive_dt 2021 2 27 0 0 0 0) (mkPD 0 0 28 0 0 0 0 28).
+Proof. repeat split; vm_compute; reflexivity. Qed.
 
-(* 2021-01-30 -> 2021-02-27: "1 month", start + 1 month = 2021-02-28 (the arm is wrong also when the start day exceeds the end month) *)
-Lemma rebuild_refuted_clamped : exists a b r, dt_pair a b /\ p_wall a <= p_wall b /\ py_precise_diff a b = Ok r /\ ~ rebuilds a b r.
-Proof.
-  exists (naive_dt 2021 1 30 0 0 0 0), (naive_dt 2021 2 27 0 0 0 0), (mkPD 0 1 0 0 0 0 0 28).
-  split; [apply dt_pair_naive; reflexivity|]. split; [vm_compute; discriminate|]. split; [vm_compute; reflexivity|].
-  unfold rebuilds. vm_compute. discriminate.
-Qed.
-
-(* the same witness through the Rust model *)
-Lemma rs_rebuild_refuted : exists a b, dt_pair a b /\ p_wall a <= p_wall b /\ ~ rebuilds a b (rs_precise_diff a b true).
-Proof.
-  exists (naive_dt 2021 5 2 0 0 0 0), (naive_dt 2021 6 1 0 0 0 0).
-  split; [apply dt_pair_naive; reflexivity|]. split; [vm_compute; discriminate|]. unfold rebuilds. vm_compute. discriminate.
-Qed.
-
-(* a genuine clamp is rebuilt: 2021-01-31 -> 2021-02-28 is "1 month" and start + 1 month = 2021-02-28 *)
+(* a genuine clamp is still "1 month": 2021-01-31 -> 2021-02-28, and start + 1 month = 2021-02-28 *)
 Example rebuild_genuine_clamp :
   py_precise_diff (naive_dt 2021 1 31 0 0 0 0) (naive_dt 2021 2 28 0 0 0 0) = Ok (mkPD 0 1 0 0 0 0 0 28) /\
+  rs_precise_diff (naive_dt 2021 1 31 0 0 0 0) (naive_dt 2021 2 28 0 0 0 0) true = mkPD 0 1 0 0 0 0 0 28 /\
   rebuilds (naive_dt 2021 1 31 0 0 0 0) (naive_dt 2021 2 28 0 0 0 0) (mkPD 0 1 0 0 0 0 0 28).
-Proof. split; vm_compute; reflexivity. Qed.
+Proof. repeat split; vm_compute; reflexivity. Qed.
 
 (* cross-zone: 2021-03-01T00:30+01:00 vs 2021-04-01T00:00Z — Python 1 month 3 days 30 min, Rust 1 month 0 days 30 min *)
 Lemma rs_cross_zone_refuted : exists a b,
@@ -146,3 +267,14 @@ Qed.
 Example domain_inhabited : dt_pair (naive_dt 2020 2 29 23 59 59 999999) (naive_dt 2021 3 1 0 0 0 0) /\
   p_wall (naive_dt 2020 2 29 23 59 59 999999) < p_wall (naive_dt 2021 3 1 0 0 0 0).
 Proof. split; [unfold dt_pair, wf_op, wf_time, naive_dt; cbn; repeat split; auto; lia | vm_compute; reflexivity]. Qed.
+
+Example domain_inhabited_rebuild :
+  op_pair (naive_dt 1 1 31 23 59 59 999999) (naive_dt 9999 12 31 0 0 0 0) /\ same_tzinfo (naive_dt 1 1 31 23 59 59 999999) (naive_dt 9999 12 31 0 0 0 0) /\
+  1 <= p_year (naive_dt 1 1 31 23 59 59 999999) /\ p_year (naive_dt 9999 12 31 0 0 0 0) <= 9999 /\
+  p_wall (naive_dt 1 1 31 23 59 59 999999) <= p_wall (naive_dt 9999 12 31 0 0 0 0) /\
+  op_pair (plain_date 2020 1 31) (plain_date 2021 3 1) /\ p_wall (plain_date 2020 1 31) <= p_wall (plain_date 2021 3 1).
+Proof.
+  split; [left; unfold dt_pair, wf_op, wf_time, naive_dt; cbn; repeat split; auto; lia|].
+  split; [repeat split|]. split; [cbn; lia|]. split; [cbn; lia|]. split; [vm_compute; discriminate|].
+  split; [right; unfold date_pair, wf_op, wf_time, midnight, plain_date; cbn; repeat split; auto; lia | vm_compute; discriminate].
+Qed.
